@@ -2,7 +2,7 @@
    Reading a p-box as focal steps (XL_k, XR_k): the result bounds are the sorted lower / upper endpoints
    of the exact interval combinations (corner hulls, C01) of the paired steps. *)
 From Coq Require Import Reals Lra List Arith.
-From PUN Require Import Base.Num Base.Sort Model.Interval Model.Pbox Proofs.Hull Proofs.ListR Proofs.IntervalOps Proofs.DepOps.
+From PUN Require Import Base.Num Base.Sort Model.Interval Model.Pbox Proofs.Hull Proofs.ListR Proofs.IntervalOps Proofs.DepOps Model.ArrayOps Gen.GenKernels Proofs.Kernels.
 Import ListNotations.
 Open Scope R_scope.
 
@@ -52,9 +52,17 @@ Proof. exact (opposite_of_neg op XL XR YL YR). Qed.
 Example C03_ex : map2 (istep Rmult) (combine [1] [2]) (combine [-3] [4]) = [(min4 (1 * -3) (1 * 4) (2 * -3) (2 * 4), max4 (1 * -3) (1 * 4) (2 * -3) (2 * 4))].
 Proof. reflexivity. Qed.
 
+(* TIE: the three kernels above are the ones translated from pba/operation.py on every run (Gen/GenKernels.v) *)
+Theorem C03_kernels_are_translated (op : R -> R -> R) (XL XR YL YR : list R) :
+  gen_perfect_op RN op XL XR YL YR = perfect_op RN op XL XR YL YR /\
+  gen_opposite_op RN op XL XR YL YR = opposite_op RN op XL XR YL YR /\
+  gen_independent_op RN op XL XR YL YR = independent_op RN op XL XR YL YR.
+Proof. exact (conj (gen_perfect_op_is_model RN op XL XR YL YR) (conj (gen_opposite_op_is_model RN op XL XR YL YR) (gen_independent_op_is_model RN op XL XR YL YR))). Qed.
+
 Print Assumptions C03_perfect.
 Print Assumptions C03_opposite.
 Print Assumptions C03_independent.
 Print Assumptions C03_independent_block.
 Print Assumptions C03_perfect_add_stepwise.
 Print Assumptions C03_mirror.
+Print Assumptions C03_kernels_are_translated.
